@@ -33,6 +33,7 @@ MARGIN = 1e-9
 STATS = ("mean", "median", "max", "range", "std", "var")      # std / var: NumPy callables with ddof=0 (the user's statistic, not pandas' ddof=1)
 INEXACT_STATS = ("std", "var")
 BOUNDS = ((-1.0, 1.0), (0.0, 0.0), (-2.5, 0.5), (0.5, 3.0))
+INPLACE_REPRS = ("df", "series", "ndarray2d")     # containers refilled in place between two predict calls (ndarray1d: known finding KF5 route)
 REPRS = ("df", "df:x", "df:labels", "series", "series:labels", "ndarray1d", "ndarray2d", "df:int64", "df:datetime", "df:range5", "df:ties", "df:datetime-ties")
 
 
@@ -242,7 +243,7 @@ def check_case(rec, name, make_inner, x, cps, stat_name, lo, hi, rep, inp, prefi
     if prefit is not None:
         inner.fit(prefit)
     before = fingerprint(inner)
-    X = represent(x, rep)
+    X = represent(np.array(x, dtype=float), rep)        # an own copy: the container may be refilled in place below
     desc = f"StatThresholdAnomaliser({name}, {stat_name}, {lo}, {hi}) on x={np.asarray(x).tolist()} passed as {rep}, changepoints {list(cps)}"
     try:
         anom = StatThresholdAnomaliser(inner, stat=stat, stat_lower=lo, stat_upper=hi)
@@ -288,6 +289,27 @@ def check_case(rec, name, make_inner, x, cps, stat_name, lo, hi, rep, inp, prefi
             if not rep.startswith("ndarray"):
                 rec.violation(f"StatThresholdAnomaliser.transform:raises:{type(e).__name__}", f"{desc}: transform raised {type(e).__name__}: "
                               f"{str(e)[:160]}", "C17.flags", inp)
+    if err is None and name == "GivenChangepoints" and rep in INPLACE_REPRS and sorted(got) == want:
+        # "on the same data": the data ARE the values handed to this predict call -- the same container object refilled in place (a
+        # reused buffer) must be segmented and thresholded afresh, without a refit in between (the stub's changepoints do not depend on the data)
+        x2 = -2.0 * np.asarray(x, dtype=float)[::-1] + 1.0
+        want2, tie2 = expected_anomalies(x2, cps, stat, lo, hi, exact_stat=stat_name not in INEXACT_STATS)
+        if not tie2:
+            try:
+                if rep.startswith("ndarray"):
+                    X[...] = x2.reshape(X.shape)
+                elif rep == "series":
+                    X.iloc[:] = x2
+                else:
+                    X.iloc[:, 0] = x2
+                got2 = sorted(read_intervals(anom.predict(X)))
+                if got2 != want2:
+                    rec.violation("StatThresholdAnomaliser.predict:stale-after-inplace-refill",
+                                  f"{desc}: after the same {rep} object was refilled in place with {x2.tolist()} a second predict reported {got2}, "
+                                  f"the out-of-range segments of the data passed in are {want2}", "C17.flags", inp)
+            except Exception as e:                                              # noqa: BLE001
+                rec.violation(f"StatThresholdAnomaliser.predict:raises-after-inplace-refill:{type(e).__name__}",
+                              f"{desc}: second predict on the refilled object raised {type(e).__name__}: {str(e)[:160]}", "C17.flags", inp)
     if err is None or hasattr(anom, "change_detector_"):
         check_user_object(rec, name, inner, before, anom, inp, was_fitted=prefit is not None)
     return True, bool(want)
